@@ -34,7 +34,10 @@ RULE = (
     'whose fields must be readable back before and after the wire; (d) whole qa UPDATE bodies through UpdateCollection (MP_REACH / MP_UNREACH). '
     'Each object is packed, decoded, re-packed and decoded again under a Negotiated built from two OPENs (with and without ADD-PATH, ASN4 and 2-byte), '
     'and paired with a variant differing in exactly one of family, path-id, prefix, RD, label or one byte. '
-    'Non-trivial = the object decoded is not the empty/default value of its type (an NLRI longer than its bare length prefix, an attribute with a non-empty value)'
+    '(e) histories: 2-8 decodes in ONE process of a value and the values one bit (biased to type/flag bits), one AS width or one flag away from it, each compared field by field '
+    '(outcome, type, packed bytes, JSON, text, str, index) with the same decode run alone in a fork of a template process that has decoded nothing (vlib/forkiso.py). '
+    'Non-trivial = the object decoded is not the empty/default value of its type (an NLRI longer than its bare length prefix, an attribute with a non-empty value); '
+    'for a history: at least two distinct values of the sequence are accepted'
 )
 ASSUMPTIONS = [
     'x == pack(unpack(x)) is demanded only for bytes exabgp itself produced (qa/encoding raw vectors, bytes returned by pack); any other accepted input may be normalised once, after which pack/unpack must be idempotent',
@@ -1196,6 +1199,134 @@ def factory_cases(draw):
     return case
 
 
+# ---------------------------------------------------------------------------- histories: what was decoded before must not matter
+
+_ISO: list = []
+_ALONE: dict = {}
+CACHED_CODES = [8, 16, 25, 32]  # the community types keep instance caches
+
+
+def _iso():
+    if not _ISO:
+        from vlib.forkiso import ForkServer
+
+        _ISO.append(ForkServer('vlib.c15_iso'))
+    return _ISO[0]
+
+
+def _item_key(item: dict) -> tuple:
+    if item['kind'] == 'attr':
+        return ('attr', item['code'], item['flags'], item['hex'], item['asn4'])
+    return ('nlri', item['afi'], item['safi'], item['hex'], item['addpath'], item['action'])
+
+
+def _item_tag(item: dict) -> str:
+    return f'attr:{item["code"]}' if item['kind'] == 'attr' else fam_tag((item['afi'], item['safi']))
+
+
+def check_history(case: dict) -> dict:
+    """every item of every sequence, decoded after the ones before it in one process, must look exactly as it does decoded alone in a fresh one"""
+    sequences = case['sequences']
+    if len(_ALONE) > 50000:
+        _ALONE.clear()
+    need = [i for i in {_item_key(i): i for items in sequences for i in items}.values() if _item_key(i) not in _ALONE]
+    answers = _iso().run([{'items': [i]} for i in need] + [{'items': items} for items in sequences])
+    for i, a in zip(need, answers):
+        _ALONE[_item_key(i)] = a[0]
+    classes = {f'source:{case.get("source", "?")}', 'history'}
+    accepted = set()
+    for items, seq in zip(sequences, answers[len(need) :]):
+        for n, item in enumerate(items):
+            alone, here = _ALONE[_item_key(item)], seq[n]
+            tag = _item_tag(item)
+            if alone['outcome'] == 'ok':
+                accepted.add(_item_key(item))
+                classes.add(tag)
+            for field in sorted(alone.keys() | here.keys()):
+                if alone.get(field) != here.get(field):
+                    raise V(
+                        f'{tag}:history-dependent:{field}',
+                        f'item {n} of {items} decoded alone in a fresh process gives {field}={str(alone.get(field))[:200]!r}, decoded in that order in one process gives {str(here.get(field))[:200]!r}',
+                    )
+        if any(items[n] == items[m] for n in range(len(items)) for m in range(n)):
+            classes.add('history:value-repeated')
+    if len(accepted) >= 2:
+        classes.add('history:two-distinct-accepted-values')
+    return {'nontrivial': len(accepted) >= 2, 'classes': sorted(classes)}
+
+
+def _flip(item: dict, byte: int, bit: int) -> dict | None:
+    raw = bytearray(bytes.fromhex(item['hex']))
+    if not raw:
+        return None
+    raw[byte % len(raw)] ^= 1 << bit
+    return dict(item, hex=bytes(raw).hex())
+
+
+def _strip(case: dict) -> dict:
+    keep = ('kind', 'code', 'flags', 'hex', 'asn4') if case['kind'] == 'attr' else ('kind', 'afi', 'safi', 'hex', 'addpath', 'action')
+    return {k: case[k] for k in keep}
+
+
+@st.composite
+def history_cases(draw):
+    if draw(st.integers(0, 9)) < 7:
+        base = draw(attr_cases())
+        if draw(st.booleans()):
+            code = draw(st.sampled_from(CACHED_CODES))
+            generator = gen.attr_generator(code, True)
+            seeds = corpus.ATTR_SEEDS.get(code, [])
+            if generator is not None and (not seeds or draw(st.booleans())):
+                base = {'kind': 'attr', 'code': code, 'flags': ATTR_FLAG[code], 'hex': draw(generator).hex(), 'asn4': draw(st.booleans())}
+            elif seeds:
+                seed = draw(st.sampled_from(seeds))
+                base = {'kind': 'attr', 'code': code, 'flags': seed['flags'], 'hex': seed['hex'], 'asn4': seed['asn4']}
+    else:
+        base = draw(nlri_cases())
+    base = _strip(base)
+    size = max(1, len(base['hex']) // 2)
+    others = []
+    for _ in range(draw(st.integers(1, 3))):
+        how = draw(st.sampled_from(['bit', 'bit', 'bit', 'width', 'flags']))
+        if how == 'width' and base['kind'] == 'attr':
+            others.append(dict(base, asn4=not base['asn4']))
+            continue
+        if how == 'flags' and base['kind'] == 'attr' and base['flags'] & 0x80:
+            others.append(dict(base, flags=base['flags'] ^ 0x20))
+            continue
+        byte = draw(st.one_of(st.sampled_from([0, 1, 2, 3]), st.integers(0, size - 1), st.integers(0, size // 4).map(lambda k: 4 * k), st.integers(0, size // 8).map(lambda k: 8 * k)))
+        bit = draw(st.one_of(st.sampled_from([7, 6, 0]), st.integers(0, 7)))
+        u = _flip(base, byte, bit)
+        if u is not None:
+            others.append(u)
+    orders = {'vuv': [base] + others + [base], 'uv': others + [base], 'vu': [base] + others, 'vuuv': [base] + others + list(reversed(others)) + [base]}
+    picked = draw(st.lists(st.sampled_from(sorted(orders)), min_size=1, max_size=2, unique=True))
+    return {'kind': 'history', 'sequences': [orders[o] for o in picked], 'source': 'generated-history'}
+
+
+def history_fixed_cases() -> list:
+    """every attribute value of the qa vectors next to the values one type/flag bit away from it, in both orders"""
+    cases = []
+
+    def add(base: dict, source: str) -> None:
+        us = [u for u in (_flip(base, byte, bit) for byte, bit in ((0, 7), (0, 6), (1, 0), (-1, 0))) if u is not None]
+        if us:
+            cases.append({'kind': 'history', 'sequences': [[base] + us + [base], us + [base] + us], 'source': source})
+
+    for code in sorted(corpus.ATTR_SEEDS):
+        if code in (14, 15):
+            continue
+        for seed in corpus.ATTR_SEEDS[code][: 8 if code in CACHED_CODES else 2]:
+            add({'kind': 'attr', 'code': code, 'flags': seed['flags'], 'hex': seed['hex'], 'asn4': seed['asn4']}, 'seed-history')
+    for raw in ('0002fde800000064', '0102c0a8000100c8', '0202000fde800064', '030c000000000000', '800600007fc00000'):
+        base = {'kind': 'attr', 'code': 16, 'flags': 0xC0, 'hex': raw, 'asn4': True}
+        add(base, 'pinned-history')
+        for bit in (7, 6):
+            u = _flip(base, 0, bit)
+            cases.append({'kind': 'history', 'sequences': [[{**base, 'hex': base['hex'] + u['hex']}, {**base, 'hex': u['hex'] + base['hex']}]], 'source': 'pinned-history'})
+    return cases
+
+
 def check(case: dict) -> dict:
     kind = case['kind']
     if kind == 'nlri':
@@ -1208,6 +1339,8 @@ def check(case: dict) -> dict:
         return check_message(case)
     if kind == 'factory':
         return check_factory(case)
+    if kind == 'history':
+        return check_history(case)
     raise RuntimeError(f'harness: unknown case kind {kind}')
 
 
@@ -1448,6 +1581,7 @@ ENGINES = [
     Engine('attr', attr_cases, check, quick=900, thorough=25000, batch=450),
     Engine('text', text_cases, check, quick=250, thorough=6000, batch=125),
     Engine('factory', factory_cases, check, quick=400, thorough=10000, batch=200),
+    Engine('history', history_cases, check, quick=50, thorough=4000, batch=50, fixed_cases=history_fixed_cases),
 ]
 
 
